@@ -74,18 +74,29 @@ def check_compile(ctx, ci, comp):
                 out[e.name] = e.value
         return out
 
-    def decide(rule, label, env, want, get, clause):
-        sel = select_paths(paths, env, consts)
-        if not sel:
-            ctx.violation(rule, comp, label, 'no path of Int._compile handles this configuration', comp.node.lineno, clause=clause)
-            return
+    WIDTHS = (1, 2, 3, 4, 8, 9)
+
+    def decide(rule, label, env, want, get, clause, all_widths=False):
+        """the value ``get`` folds to under ``env`` (and, with all_widths, under every width and
+        signedness as well: the answer must not depend on them)"""
+        variants = [env]
+        if all_widths:
+            variants = [dict(env, **{'self.byte_count': n, 'self.is_signed': sg}) for n in WIDTHS for sg in (False, True)]
         got = set()
-        for p in sel:
-            try:
-                got.add(get(finals(p), env))
-            except Unknown as u:
-                ctx.undecided(rule, comp, label, 'cannot fold (%s)' % u, comp.node.lineno, clause=clause)
+        for env_ in variants:
+            sel = select_paths(paths, env_, consts)
+            if not sel:
+                ctx.violation(rule, comp, label, 'no path of Int._compile handles this configuration (width %s)' % env_['self.byte_count'], comp.node.lineno, clause=clause)
                 return
+            for p in sel:
+                try:
+                    g_ = get(finals(p), env_)
+                except Unknown as u:
+                    ctx.undecided(rule, comp, label, 'cannot fold (%s)' % u, comp.node.lineno, clause=clause)
+                    return
+                if g_ != want and all_widths:
+                    label = '%s [Int(%d, signed=%s)]' % (label, env_['self.byte_count'], env_['self.is_signed'])
+                got.add(g_)
         if got == {want}:
             ctx.holds(rule, comp, '%s -> %s' % (label, want if not isinstance(want, tuple) else ' / '.join(map(str, want))), 'as documented', comp.node.lineno, clause=clause)
         else:
@@ -96,7 +107,8 @@ def check_compile(ctx, ci, comp):
     def big(fin, env):
         if 'is_bigendian' not in fin:
             raise Unknown('is_bigendian is never stored on this path')
-        return bool(fold(fin['is_bigendian'], env, consts))
+        v = fold(fin['is_bigendian'], env, consts)
+        return v if v is None else bool(v)
 
     # ---------------------------------------------------------------- (b) endianness
     rule = 'R9-endianness-fold'
@@ -104,13 +116,13 @@ def check_compile(ctx, ci, comp):
     for spelling, (w_big, w_little) in sorted(want.items()):
         for order, wanted in (('big', w_big), ('little', w_little)):
             decide(rule, 'is_bigendian for endianness=%r on a %s-endian host' % (spelling, order),
-                   dict(base, **{'self.endianness': spelling, 'sys.byteorder': order}), wanted, big, 'b')
+                   dict(base, **{'self.endianness': spelling, 'sys.byteorder': order}), wanted, big, 'b', all_widths=True)
             # the same spelling given as the class-level option, the field giving none
             decide(rule, 'is_bigendian for endianness omitted, class option %r, %s-endian host' % (spelling, order),
-                   dict(base, **{'self.endianness': None, 'sys.byteorder': order, 'bisturi_conf': {'endianness': spelling}}), wanted, big, 'b')
+                   dict(base, **{'self.endianness': None, 'sys.byteorder': order, 'bisturi_conf': {'endianness': spelling}}), wanted, big, 'b', all_widths=True)
     for order in ('big', 'little'):
         decide(rule, 'is_bigendian for endianness omitted and no class option, %s-endian host' % order,
-               dict(base, **{'self.endianness': None, 'sys.byteorder': order}), True, big, 'b')
+               dict(base, **{'self.endianness': None, 'sys.byteorder': order}), True, big, 'b', all_widths=True)
     # ---------------------------------------------------------------- (a) strategy routing and struct codes
     rule = 'R9-struct-codes'
 
